@@ -150,7 +150,22 @@ fn cargo_build(proj: &Path, target: &Path, bin: &str, release: bool) -> Built {
         for sp in &spans {
             let file = sp["file_name"].as_str().unwrap_or("");
             if sp["is_primary"].as_bool().unwrap_or(false) && file.ends_with(&format!("{bin}.rs")) {
-                let l = sp["line_start"].as_u64().unwrap_or(0) as usize;
+                // an error inside a declarative wrapper macro points at the macro definition;
+                // the line that matters is the outermost invocation (follow the expansion chain)
+                let mut cur = sp.clone();
+                let mut l = cur["line_start"].as_u64().unwrap_or(0) as usize;
+                let mut guard = 0;
+                while cur["expansion"].is_object() && guard < 16 {
+                    let outer = cur["expansion"]["span"].clone();
+                    if !outer.is_object() {
+                        break;
+                    }
+                    if outer["file_name"].as_str().unwrap_or("").ends_with(&format!("{bin}.rs")) {
+                        l = outer["line_start"].as_u64().unwrap_or(l as u64) as usize;
+                    }
+                    cur = outer;
+                    guard += 1;
+                }
                 errors.entry(l).or_default().push(text.clone());
                 placed = true;
             }
